@@ -163,7 +163,44 @@ def _long_worker(_):
     return st, out, hs, 'long'
 
 
+MINER_CONFIGS = [((('f',), ('f', 's')), (), off, inter) for off in (0, 1, 120)
+                 for inter in ('none', ('none', ('two', 0)), ('clock-advances', ('two', 1)), ('clock-advances', ('after-result', 0)))] + \
+                [((('f',), ('f', 's'), ('f', 's', 'e')), (), off, inter) for off in (0, 120)
+                 for inter in (('none', ('two', 0)), ('clock-advances', ('after-request', 0)))]
+
+
+def _miner_worker(cfgs):
+    """the last sentence of C05 through the node's real assembly path: the MinerWatcher's work requests and results (one and
+    two miner processes, clock advancing between requests; retarget period seam so that some candidates are boundary
+    blocks): whenever a header assembled by the node has an id below its target, the node's own validation accepts it"""
+    import contextlib
+    import io
+    from . import c12
+    c12._W.clear()
+    c12.setup_worker()
+    out = []
+    n = 0
+    for cfg in cfgs:
+        with contextlib.redirect_stdout(io.StringIO()):
+            bad, info = c12.one_run(*cfg)
+        n += 1
+        for key, what in (bad or []):
+            if key.startswith('mined-block-fails-validation') and 'time_future@clock=head-30' not in key:
+                out.append(('own-assembly-rejected-in-miner', what, cfg))
+            elif key == 'miner-handler-raises' and 'Validate' in what:
+                out.append(('own-assembly-rejected-in-miner', what, cfg))
+    return n, out
+
+
 def run(ctx):
+    # the miner-watcher part first: its workers are forked before this module's seams are installed
+    mres = ctx.pmap(_miner_worker, [MINER_CONFIGS[i::8] for i in range(8)])
+    for n, out in mres:
+        for key, what, cfg in out:
+            ctx.violation(key, "%s; miner watcher on history %s, clock offset %+d, event %s" % (what, ledger.hist_str(cfg[0]), cfg[2], cfg[3]),
+                          {'kind': 'miner', 'cfg': [[list(p) for p in cfg[0]], list(cfg[1]), cfg[2],
+                                                    cfg[3] if isinstance(cfg[3], str) else [cfg[3][0], list(cfg[3][1])]]})
+    ctx.cov['miner_watcher_runs'] = sum(n for n, _ in mres)
     ledger.setup()
     seams.retarget_period(SEAM_PERIOD, SEAM_SPAN)
     uni = make_universe()
@@ -203,6 +240,11 @@ def run(ctx):
 
 
 def replay(data, ctx):
+    if data.get('kind') == 'miner':
+        c = data['cfg']
+        it = c[3] if isinstance(c[3], str) else (c[3][0], tuple(c[3][1]))
+        n, out = _miner_worker([(tuple(tuple(p) for p in c[0]), tuple(c[1]), c[2], it)])
+        return [(k, w) for k, w, _ in out]
     ledger.setup()
     if data.get('kind') == 'grid':
         from skepticoin import consensus
